@@ -169,6 +169,15 @@ func (c *Ctx) CG() *CallGraph {
 			}
 		}
 	}
+	addrTaken := map[*ssa.Function]bool{}
+	for _, ts := range refOut {
+		for _, t := range ts {
+			addrTaken[t] = true
+			if o := t.Origin(); o != nil {
+				addrTaken[o] = true
+			}
+		}
+	}
 	// liveness
 	var roots []*ssa.Function
 	for _, p := range prog.AllPackages() {
@@ -274,6 +283,11 @@ func (c *Ctx) CG() *CallGraph {
 		}
 		for _, e := range g.chaOut[fn] {
 			dyn := e.Site != nil && e.Site.Common().StaticCallee() == nil && e.Kind != "hof" && e.Kind != "go-hof"
+			// CHA resolves a call through a function value to every function of that signature; only a function that is used
+			// as a value somewhere can be the one called (an unreferenced function of the same signature stays dead)
+			if dyn && !e.Site.Common().IsInvoke() && e.Callee.Signature.Recv() == nil && e.Callee.Parent() == nil && !addrTaken[e.Callee] {
+				continue
+			}
 			walk(e.Callee, dyn)
 		}
 		for _, t := range refOut[fn] {
